@@ -25,6 +25,7 @@ PROPS = {
     "C05": dict(
         title="depth-first search order",
         props_module="PvModel.Props.C05",
+        props_extra=["PvModel.Props.C05Rel"],
         rule="goal trees (conj/conde/disj/fresh over == leaves, member/append calls on bounded lists) inside dfs{}, observed as the sequence of states "
              "the goal produces (raw mode) and, for the corpus, as query answers; oracle: independent recursive depth-first interpreter, compared "
              "position by position; non-trivial = >=2 answers; distinct = distinct case lines",
